@@ -134,6 +134,9 @@ impl WriteExt for Writer<&mut BytesMut> {
 
 impl<W: WriteExt + ?Sized> WriteExt for IoBufWriter<W> {
     fn reserve_with(&mut self, additional: usize) -> io::Result<&mut [MaybeUninit<u8>]> {
+        // the bytes buffered so far must reach the inner writer before it hands out its own
+        // buffer, otherwise the output is reordered
+        io::Write::flush(self)?;
         self.get_mut().reserve_with(additional)
     }
 
